@@ -6,7 +6,7 @@
    The calendar part: days_from_civil (civil_from_days z) = z with a valid civil date, for all z of that range,
    from one sweep over the 146 097 days of a 400-year era plus arithmetic in the era number. *)
 From AP.Model Require Import Prelude Bytes Vocab Json JsonLeaf Text JsonDec.
-From AP.Proofs Require Import NlvP TextP C01NumP C01SweepP.
+From AP.Proofs Require Import NlvP TextP C01NumP C01SweepP XsdDurP.
 Open Scope Z_scope.
 
 Lemma is_leap_era y e : is_leap (y + e * 400) = is_leap y.
@@ -190,14 +190,24 @@ Lemma xsd_parts_S f it s acc : xsd_parts (S f) it s acc =
         | Some n, u :: r =>
             if Nat.ltb 9 (length ds) then None
             else if it then
-              if Byte.eqb u x48 then xsd_parts f true r (acc + n * 3600)
-              else if Byte.eqb u x4d then xsd_parts f true r (acc + n * 60)
-              else if Byte.eqb u x53 then xsd_parts f true r (acc + n)
+              if Byte.eqb u x48 then match add_part acc (n * 3600000000000) with Some a => xsd_parts f true r a | None => None end
+              else if Byte.eqb u x4d then match add_part acc (n * 60000000000) with Some a => xsd_parts f true r a | None => None end
+              else if Byte.eqb u x53 then
+                match sec_nanos ds [] with Some ns => xsd_parts f true r (acc + ns) | None => None end
+              else if Byte.eqb u x2e then
+                let fs := take_digits r in
+                match fs, skipn (length fs) r with
+                | _ :: _, sb :: r' =>
+                    if Byte.eqb sb x53 && Nat.leb (length fs) 30 then
+                      match sec_nanos ds fs with Some ns => xsd_parts f true r' (acc + ns) | None => None end
+                    else None
+                | _, _ => None
+                end
               else None
             else
-              if Byte.eqb u x59 then xsd_parts f false r (acc + n * 356 * 86400)
-              else if Byte.eqb u x4d then xsd_parts f false r (acc + n * 30 * 86400)
-              else if Byte.eqb u x44 then xsd_parts f false r (acc + n * 86400)
+              if Byte.eqb u x59 then match add_part acc (n * 356 * 86400000000000) with Some a => xsd_parts f false r a | None => None end
+              else if Byte.eqb u x4d then match add_part acc (n * 30 * 86400000000000) with Some a => xsd_parts f false r a | None => None end
+              else if Byte.eqb u x44 then match add_part acc (n * 86400000000000) with Some a => xsd_parts f false r a | None => None end
               else None
         | _, _ => None
         end
@@ -222,27 +232,45 @@ Qed.
 
 Lemma pow9_40 : 10 ^ Z.of_nat 9 < 10 ^ 40. Proof. reflexivity. Qed.
 
+Lemma wrap64_small z : - 2 ^ 63 <= z < 2 ^ 63 -> wrap64 z = z.
+Proof. intros H. unfold wrap64. change (2 ^ 64) with (2 * 2 ^ 63). rewrite Z.mod_small by lia. lia. Qed.
+
+Lemma add_part_ok acc v : v < 2 ^ 63 -> add_part acc v = Some (acc + v).
+Proof. intros H. unfold add_part. apply Z.ltb_lt in H. rewrite H. reflexivity. Qed.
+
+(* a whole number of seconds below a minute is read exactly (float32 holds the integers below 2^24): 60 evaluations *)
+Lemma sec_nanos_sweep :
+  forallb (fun k => match sec_nanos (digits (Z.of_nat k)) [] with Some v => v =? Z.of_nat k * 1000000000 | None => false end) (seq 0 60) = true.
+Proof. vm_compute. reflexivity. Qed.
+Lemma sec_nanos_small se : 0 <= se < 60 -> sec_nanos (digits se) [] = Some (se * 1000000000).
+Proof.
+  intros H. pose proof sec_nanos_sweep as S. rewrite forallb_forall in S.
+  specialize (S (Z.to_nat se)). rewrite Z2Nat.id in S by lia.
+  destruct (sec_nanos (digits se) []) as [v|]; [|discriminate S; apply in_seq; lia].
+  f_equal. apply Z.eqb_eq. apply S. apply in_seq. lia.
+Qed.
+
 (* one "number, designator" group *)
-Lemma xsd_group f it n u rest acc : 0 <= n < 10 ^ Z.of_nat 9 -> is_digit u = false ->
+Lemma xsd_group f it n u rest acc : 0 <= n < 10 ^ Z.of_nat 9 -> is_digit u = false -> Byte.eqb u x2e = false ->
   xsd_parts (S f) it (digits n ++ u :: rest) acc =
   if it then
-    if Byte.eqb u x48 then xsd_parts f true rest (acc + n * 3600)
-    else if Byte.eqb u x4d then xsd_parts f true rest (acc + n * 60)
-    else if Byte.eqb u x53 then xsd_parts f true rest (acc + n)
+    if Byte.eqb u x48 then match add_part acc (n * 3600000000000) with Some a => xsd_parts f true rest a | None => None end
+    else if Byte.eqb u x4d then match add_part acc (n * 60000000000) with Some a => xsd_parts f true rest a | None => None end
+    else if Byte.eqb u x53 then match sec_nanos (digits n) [] with Some ns => xsd_parts f true rest (acc + ns) | None => None end
     else None
   else
-    if Byte.eqb u x59 then xsd_parts f false rest (acc + n * 356 * 86400)
-    else if Byte.eqb u x4d then xsd_parts f false rest (acc + n * 30 * 86400)
-    else if Byte.eqb u x44 then xsd_parts f false rest (acc + n * 86400)
+    if Byte.eqb u x59 then match add_part acc (n * 356 * 86400000000000) with Some a => xsd_parts f false rest a | None => None end
+    else if Byte.eqb u x4d then match add_part acc (n * 30 * 86400000000000) with Some a => xsd_parts f false rest a | None => None end
+    else if Byte.eqb u x44 then match add_part acc (n * 86400000000000) with Some a => xsd_parts f false rest a | None => None end
     else None.
 Proof.
-  intros Hn Hu. pose proof pow9_40 as P9.
+  intros Hn Hu Hdot. pose proof pow9_40 as P9.
   assert (Hn40 : 0 <= n < 10 ^ 40) by lia.
   pose proof (digits_all_digit n Hn40) as Hd. pose proof (digits_len_le n 9 Hn ltac:(lia)) as Hl.
   destruct (digits_head n Hn40) as [b [r [Eb Hb]]].
   rewrite xsd_parts_S. rewrite Eb at 1. cbn [app]. rewrite (digit_not_T b Hb), andb_false_r.
   cbv zeta. rewrite (take_digits_app _ u rest Hd Hu), skipn_app_exact, (parse_nat_digits n Hn40).
-  assert (Hlt : Nat.ltb 9 (length (digits n)) = false) by (apply Nat.ltb_ge; exact Hl). rewrite Hlt. reflexivity.
+  assert (Hlt : Nat.ltb 9 (length (digits n)) = false) by (apply Nat.ltb_ge; exact Hl). rewrite Hlt, Hdot. reflexivity.
 Qed.
 
 (* an optional group: written only for a positive number *)
@@ -252,40 +280,30 @@ Definition dur_dom (d : Z) : bool :=
   (Z.abs d mod 1000000000 =? 0) && negb (d =? 0) && (Z.abs d <? 2 ^ 63).
 
 Lemma xsd_time_part f h mi se acc : 0 <= h < 24 -> 0 <= mi < 60 -> 0 <= se < 60 ->
-  xsd_parts (S (S (S (S f)))) true (grp h x48 ++ grp mi x4d ++ grp se x53) acc = Some (acc + h * 3600 + mi * 60 + se).
+  xsd_parts (S (S (S (S f)))) true (grp h x48 ++ grp mi x4d ++ grp se x53) acc = Some (acc + (h * 3600 + mi * 60 + se) * 1000000000).
 Proof.
   intros Hh Hm Hs. pose proof (pow9_40).
   assert (B9 : 10 ^ Z.of_nat 9 = 1000000000) by reflexivity.
+  assert (B63 : 2 ^ 63 = 9223372036854775808) by reflexivity.
   assert (Hud48 : is_digit x48 = false) by reflexivity. assert (Hud4d : is_digit x4d = false) by reflexivity.
   assert (Hud53 : is_digit x53 = false) by reflexivity.
   (* seconds *)
-  assert (S3 : forall f0 a, xsd_parts (S (S f0)) true (grp se x53) a = Some (a + se)).
+  assert (S3 : forall f0 a, xsd_parts (S (S f0)) true (grp se x53) a = Some (a + se * 1000000000)).
   { intros f0 a. unfold grp. destruct (0 <? se) eqn:E.
-    - rewrite (xsd_group (S f0) true se x53 [] a ltac:(lia) Hud53). reflexivity.
+    - rewrite (xsd_group (S f0) true se x53 [] a ltac:(lia) Hud53 eq_refl). cbn [Byte.eqb]. change (Byte.eqb x53 x48) with false.
+      change (Byte.eqb x53 x4d) with false. change (Byte.eqb x53 x53) with true. cbv iota. rewrite (sec_nanos_small se Hs). reflexivity.
     - apply Z.ltb_ge in E. cbn [app]. rewrite xsd_parts_S. f_equal. lia. }
   (* minutes, then seconds *)
-  assert (S2 : forall f0 a, xsd_parts (S (S (S f0))) true (grp mi x4d ++ grp se x53) a = Some (a + mi * 60 + se)).
+  assert (S2 : forall f0 a, xsd_parts (S (S (S f0))) true (grp mi x4d ++ grp se x53) a = Some (a + (mi * 60 + se) * 1000000000)).
   { intros f0 a. unfold grp at 1. destruct (0 <? mi) eqn:E.
-    - rewrite <- app_assoc. cbn [app]. rewrite (xsd_group (S (S f0)) true mi x4d (grp se x53) a ltac:(lia) Hud4d).
-      change (Byte.eqb x4d x48) with false. change (Byte.eqb x4d x4d) with true. cbv iota. rewrite S3; try reflexivity; f_equal; lia.
-    - apply Z.ltb_ge in E. cbn [app].
-      replace (Some (a + mi * 60 + se)) with (Some (a + se)) by (f_equal; lia).
-      unfold grp. destruct (0 <? se) eqn:E2.
-      + rewrite (xsd_group (S (S f0)) true se x53 [] a ltac:(lia) Hud53). reflexivity.
-      + apply Z.ltb_ge in E2. rewrite xsd_parts_S. f_equal. lia. }
+    - rewrite <- app_assoc. cbn [app]. rewrite (xsd_group (S (S f0)) true mi x4d (grp se x53) a ltac:(lia) Hud4d eq_refl).
+      change (Byte.eqb x4d x48) with false. change (Byte.eqb x4d x4d) with true. cbv iota.
+      rewrite (add_part_ok a (mi * 60000000000)) by lia. rewrite S3. f_equal. lia.
+    - apply Z.ltb_ge in E. cbn [app]. rewrite S3. f_equal. lia. }
   unfold grp at 1. destruct (0 <? h) eqn:E.
-  - rewrite <- app_assoc. cbn [app]. rewrite (xsd_group (S (S (S f))) true h x48 _ acc ltac:(lia) Hud48).
-    change (Byte.eqb x48 x48) with true. cbv iota. rewrite S2; try reflexivity; f_equal; lia.
-  - apply Z.ltb_ge in E. cbn [app].
-    replace (Some (acc + h * 3600 + mi * 60 + se)) with (Some (acc + mi * 60 + se)) by (f_equal; lia).
-    unfold grp at 1. destruct (0 <? mi) eqn:E1.
-    + rewrite <- app_assoc. cbn [app]. rewrite (xsd_group (S (S (S f))) true mi x4d (grp se x53) acc ltac:(lia) Hud4d).
-      change (Byte.eqb x4d x48) with false. change (Byte.eqb x4d x4d) with true. cbv iota. rewrite S3; try reflexivity; f_equal; lia.
-    + apply Z.ltb_ge in E1. cbn [app].
-      replace (Some (acc + mi * 60 + se)) with (Some (acc + se)) by (f_equal; lia).
-      unfold grp. destruct (0 <? se) eqn:E2.
-      * rewrite (xsd_group (S (S (S f))) true se x53 [] acc ltac:(lia) Hud53). reflexivity.
-      * apply Z.ltb_ge in E2. rewrite xsd_parts_S. f_equal. lia.
+  - rewrite <- app_assoc. cbn [app]. rewrite (xsd_group (S (S (S f))) true h x48 _ acc ltac:(lia) Hud48 eq_refl).
+    change (Byte.eqb x48 x48) with true. cbv iota. rewrite (add_part_ok acc (h * 3600000000000)) by lia. rewrite S2. f_equal. lia.
+  - apply Z.ltb_ge in E. cbn [app]. rewrite S2. f_equal. lia.
 Qed.
 
 Lemma grp_time_nonempty h mi se : 0 <= h -> 0 <= mi -> 0 <= se -> 0 < h * 3600 + mi * 60 + se ->
@@ -306,7 +324,10 @@ Lemma fmt_xsd_shape d : dur_dom d = true ->
         grp (s / 86400) x44 ++
         (if 0 <? r then x54 :: grp (r / 3600) x48 ++ grp (r mod 3600 / 60) x4d ++ grp (r mod 60) x53 else [])).
 Proof.
-  unfold dur_dom. rewrite !andb_true_iff. intros [[H1 H2] H3]. cbv zeta. unfold fmt_xsd_duration. rewrite H1, H2. cbn [andb].
+  unfold dur_dom. rewrite !andb_true_iff. intros [[H1 H2] H3]. cbv zeta.
+  (* on whole seconds the printer is the one without the float formatting of the seconds (XsdDurP.fmt_xsd_whole) *)
+  rewrite (fmt_xsd_whole d); [|apply Z.eqb_eq; exact H1|apply Z.eqb_neq; apply negb_true_iff; exact H2].
+  unfold fmt_xsd_duration_whole. rewrite H1, H2. cbn [andb].
   unfold grp. reflexivity.
 Qed.
 
@@ -333,11 +354,13 @@ Proof.
   (* the body behind the sign and the P *)
   set (body := grp (s / 86400) x44 ++
                (if 0 <? r then x54 :: grp (r / 3600) x48 ++ grp (r mod 3600 / 60) x4d ++ grp (r mod 60) x53 else [])).
-  assert (Hbody : body <> [] /\ xsd_parts 12 false body 0 = Some s).
+  assert (B63 : 2 ^ 63 = 9223372036854775808) by reflexivity.
+  assert (Hbody : body <> [] /\ xsd_parts 12 false body 0 = Some (s * 1000000000)).
   { unfold body. destruct (0 <? s / 86400) eqn:Ed.
     - split; [unfold grp at 1; rewrite Ed; destruct (digits (s / 86400)); discriminate|].
-      unfold grp at 1. rewrite Ed. rewrite <- app_assoc. cbn [app]. rewrite (xsd_group 11 false (s / 86400) x44 _ 0 Hdd eq_refl).
+      unfold grp at 1. rewrite Ed. rewrite <- app_assoc. cbn [app]. rewrite (xsd_group 11 false (s / 86400) x44 _ 0 Hdd eq_refl eq_refl).
       change (Byte.eqb x44 x59) with false. change (Byte.eqb x44 x4d) with false. change (Byte.eqb x44 x44) with true. cbv iota.
+      rewrite (add_part_ok 0 (s / 86400 * 86400000000000)) by lia.
       destruct (0 <? r) eqn:Er.
       + rewrite xsd_parts_S. change (negb false && Byte.eqb x54 x54) with true. cbv iota.
         apply Z.ltb_lt in Er.
@@ -359,7 +382,7 @@ Proof.
   clearbody body.
   unfold parse_xsd_duration. destruct (d <? 0) eqn:Eneg.
   - cbn [app]. change (Byte.eqb x2d x2d) with true. cbv iota. change (Byte.eqb x50 x50) with true. cbv iota.
-    rewrite (Hmatch _ body _ _ Hbne), Hbp. f_equal. apply Z.ltb_lt in Eneg. lia.
+    rewrite (Hmatch _ body _ _ Hbne), Hbp. f_equal. apply Z.ltb_lt in Eneg. rewrite wrap64_small by lia. lia.
   - cbn [app]. change (Byte.eqb x50 x2d) with false. cbv iota. change (Byte.eqb x50 x50) with true. cbv iota.
-    rewrite (Hmatch _ body _ _ Hbne), Hbp. f_equal. apply Z.ltb_ge in Eneg. lia.
+    rewrite (Hmatch _ body _ _ Hbne), Hbp. f_equal. apply Z.ltb_ge in Eneg. rewrite wrap64_small by lia. lia.
 Qed.
